@@ -243,6 +243,7 @@ type c21Case struct {
 	Keys    []string // hash: message keys (one message per entry); others: ignored
 	Count   int      // number of broadcasts (rr / fanout / random)
 	Shrink  int      // hash: after the first pass remove this many routees (AdjustRouterPoolSize(-Shrink)) and send the keys again
+	Kill    int      // after the first pass stop this many routees from outside the router (routee.Shutdown), then send again
 	VN      int
 }
 
@@ -261,7 +262,8 @@ type c21Out struct {
 	Routees        []string            `json:",omitempty"` // router cases: routee names
 	Pass1          map[string][]string `json:",omitempty"` // router cases: message id -> receivers
 	Pass2          map[string][]string `json:",omitempty"`
-	Alive2         []string            `json:",omitempty"` // hash: routees left after shrinking
+	Alive2         []string            `json:",omitempty"` // routees left after shrinking / stopping
+	Killed         []string            `json:",omitempty"`
 	Sent1, Sent2   int
 	Err            string `json:",omitempty"`
 }
@@ -360,7 +362,7 @@ func TestVerifC21Route(t *testing.T) {
 				}
 				out.Steps = append(out.Steps, st)
 			}
-			c21Rec.waitFor(expect, 3*time.Second)
+			c21Rec.waitFor(expect, 20*time.Second)
 			got := c21Rec.snapshot()
 			for i := range out.Steps {
 				if out.Steps[i].MsgID < 0 {
@@ -441,7 +443,7 @@ func TestVerifC21Route(t *testing.T) {
 				if c.Strategy == "fanout" {
 					want = n * c.N
 				}
-				c21Rec.waitFor(want, 3*time.Second)
+				c21Rec.waitFor(want, 20*time.Second)
 				res := map[string][]string{}
 				got := c21Rec.snapshot()
 				for i := 0; i < n; i++ {
@@ -468,6 +470,61 @@ func TestVerifC21Route(t *testing.T) {
 				}
 				sort.Strings(out.Alive2)
 				out.Sent2, out.Pass2 = send(c.Keys, c.Count)
+			}
+			if c.Kill > 0 {
+				// stop routees behind the router's back (as an operator, a poison pill or the routee
+				// itself would); the router is idle, so reading its map here does not race
+				xr, _ := rpid.Actor().(*router)
+				victims := map[string]bool{}
+				if xr != nil {
+					// prefer the routees that own keys (hash) so that the stop matters
+					owners := []string{}
+					seen := map[string]bool{}
+					for i := 0; i < out.Sent1; i++ {
+						for _, r := range out.Pass1[strconv.Itoa(i)] {
+							if !seen[r] {
+								seen[r] = true
+								owners = append(owners, r)
+							}
+						}
+					}
+					for _, n := range names {
+						if !seen[n] {
+							owners = append(owners, n)
+						}
+					}
+					for _, n := range owners {
+						if len(victims) < c.Kill {
+							victims[n] = true
+						}
+					}
+					var vps []*PID
+					for _, p := range xr.routeesMap {
+						if victims[p.Name()] {
+							vps = append(vps, p)
+						}
+					}
+					for _, p := range vps {
+						_ = p.Shutdown(ctx)
+					}
+					for _, p := range vps {
+						for tries := 0; tries < 5000 && p.IsRunning(); tries++ {
+							time.Sleep(time.Millisecond)
+						}
+					}
+				}
+				for _, n := range names {
+					if victims[n] {
+						out.Killed = append(out.Killed, n)
+					} else {
+						out.Alive2 = append(out.Alive2, n)
+					}
+				}
+				nAlive := len(out.Alive2)
+				saveN := c.N
+				c.N = nAlive // fan-out expectation of the second pass
+				out.Sent2, out.Pass2 = send(c.Keys, c.Count)
+				c.N = saveN
 			}
 			_ = rpid.Shutdown(ctx)
 		}
